@@ -53,13 +53,10 @@ Definition read_heap (s : bytes) (i : Z) : option N :=
        | None => if (i =? Z.of_nat (length s))%Z then Some 0 else None
        end.
 
-(* a string / object-path argument inside the message body: the bytes are preceded by the 4-byte
-   length word and followed by a NUL.  Index -1 is the last byte of the length word, which is inside
-   the body buffer; the matcher only reads it when the string is empty, and then that byte is 0 in
-   either byte order. *)
-Definition read_body (s : bytes) (i : Z) : option N :=
-  if (i =? -1)%Z then (match s with [] => Some 0 | _ => None end)
-  else read_heap s i.
+(* a string / object-path argument inside the message body: the bytes are followed by a NUL.  (Before
+   commit c577f29 the matcher could read index -1, the last byte of the length word; it no longer does,
+   so index -1 is outside like any other negative index.) *)
+Definition read_body (s : bytes) (i : Z) : option N := read_heap s i.
 
 Definition SLASH_C : N := 47.
 Definition DOT_C : N := 46.
@@ -75,22 +72,26 @@ Definition arg_matches (kind : argkind) (expected : bytes) (actual : option marg
       let alen := zlen a in
       match kind with
       | ArgPath =>
-          (* if (actual_length < expected_length && actual_arg[actual_length - 1] != '/') return FALSE; *)
+          (* if (actual_length < expected_length &&
+                 (actual_length == 0 || actual_arg[actual_length - 1] != '/')) return FALSE; *)
           match (if (alen <? elen)%Z
-                 then match read_body a (alen - 1) with
-                      | None => None
-                      | Some c => Some (negb (c =? SLASH_C))
-                      end
+                 then (if (alen =? 0)%Z then Some true
+                       else match read_body a (alen - 1) with
+                            | None => None
+                            | Some c => Some (negb (c =? SLASH_C))
+                            end)
                  else Some false) with
           | None => None
           | Some true => Some false
           | Some false =>
-              (* if (expected_length < actual_length && expected_arg[expected_length - 1] != '/') return FALSE; *)
+              (* if (expected_length < actual_length &&
+                     (expected_length == 0 || expected_arg[expected_length - 1] != '/')) return FALSE; *)
               match (if (elen <? alen)%Z
-                     then match read_heap expected (elen - 1) with
-                          | None => None
-                          | Some c => Some (negb (c =? SLASH_C))
-                          end
+                     then (if (elen =? 0)%Z then Some true
+                           else match read_heap expected (elen - 1) with
+                                | None => None
+                                | Some c => Some (negb (c =? SLASH_C))
+                                end)
                      else Some false) with
               | None => None
               | Some true => Some false
